@@ -718,7 +718,7 @@ func portsetEngine() engine {
 		name:     "portset",
 		gen:      genPortCase,
 		eval:     portEval,
-		budget:   func(o *common.Options) int { return o.Budget(150, 5000) },
+		budget:   func(o *common.Options) int { return o.Budget(150, 2500) },
 		batch:    50,
 		directed: portDirected,
 	}
